@@ -399,6 +399,8 @@ def gen_plan(S, index, tier):
     if index < off + retype_runs:
         return _gen_retype_plan(S, index - off, header, queries)
     plan = _gen_random_plan(S, header, tier)
+    if index % 8 == 5:
+        plan['header']['ambient'] = True   # non-default interpreter settings for this run
     if index % 8 == 3:
         plan['header']['cold'] = True      # restart fault: this run executes in a process that has run nothing
     return plan
@@ -434,7 +436,8 @@ def _gen_long_plan(S, k, header, opnames):
     sp = _long_spec(S, light='ragment' in name or 'fmatch' in name or 'match' in name)
     short = copy.deepcopy(world.FIXED_SPECS[3])
     pool, W = _mk_world(S, cfg, [sp, short], ['parse', 'parse'], 'quick')
-    header.update({'mode': 'long', 'op': name, 'clients': 1, 'faults': ['restart'], 'cold': True, 'len': len(sp['seq'])})
+    header.update({'mode': 'long', 'op': name, 'clients': 1, 'faults': ['restart'], 'cold': True, 'len': len(sp['seq']),
+                   'ambient': True})
     events = []
     o = OPS[name]
     if name in LONG_SKIP:
@@ -986,6 +989,27 @@ def _order_sig(nf, acc=None):
 def execute(plan):
     setup()
     base.check_poison_consistent(plan)
+    if plan['header'].get('ambient'):
+        # the ambient fault: the client runs with NON-default interpreter settings (cyclic collector switched off,
+        # another recursion limit).  A library call that "restores" such a setting to its usual value instead of to
+        # what it found shows as a change of the per-event fingerprint.  Put back at the end of the run.
+        import gc
+        import sys
+        was = (gc.isenabled(), sys.getrecursionlimit())
+        gc.disable()
+        sys.setrecursionlimit(was[1] + 137)
+        try:
+            out = _execute(plan)
+            out.faults['ambient'] += 1
+            return out
+        finally:
+            sys.setrecursionlimit(was[1])
+            if was[0]:
+                gc.enable()
+    return _execute(plan)
+
+
+def _execute(plan):
     run = _Run(plan)
     out = run.out
     hdr = plan['header']
